@@ -227,6 +227,44 @@ def _conv(kind, narrow):
     return repr(r + (sorted(type(x.message).__name__ for x in w),)), True, ""
 
 
+def _parse_edit_header_parse(which):
+    """parse a file, edit the header object that came back (to export it again under other settings), parse the same bytes
+    again: the second result describes the file, not the first caller's edits"""
+    import io
+
+    from ofxtools import header as hd
+    from vf import ref_header as H
+
+    if which == "v1":
+        fields = H.v1_fields(102, "NONE", "USASCII", "1252", "NONE", "NONE", "uid-1")
+        data = H.render_v1(fields).encode("ascii") + "<OFX><A>caf\u00e9 \u20ac</A></OFX>".encode("cp1252")
+    else:
+        fields = H.v2_fields(203, "NONE", "NONE", "uid-1")
+        data = (H.render_v2(fields) + "<OFX><A>caf\u00e9 \u20ac</A></OFX>").encode("utf_8")
+    h1, _ = hd.parse_header(io.BytesIO(data))
+    for attr, val in (("version", 103 if which == "v1" else 220), ("newfileuid", "EDITED"), ("security", "TYPE1"), ("charset", "NONE")):
+        if hasattr(h1, attr):
+            setattr(h1, attr, val)
+    h2, body = hd.parse_header(io.BytesIO(data))
+    got = H.header_obj_fields(h2)
+    return repr((sorted(got.items()), body)), got == fields and h2 is not h1, "a header object returned to an earlier caller (the later parse shows that caller's edits)"
+
+
+def _unclosed(which):
+    """the end-tag-less writer: a small request written whole; and a call that fails half-way (a tree holding a number
+    where text belongs), which must leave nothing behind for the next call"""
+    from ofxtools import utils
+
+    if which == "failing":
+        root = ET.Element("A")
+        ET.SubElement(root, "B").text = "kept text"
+        ET.SubElement(root, "C").text = 5
+        return _fails(lambda: utils.tostring_unclosed_elements(root)), True, ""
+    inst = U.build(U.MIN(U.cls_by_name("STMTTRNRQ" if which == "rq" else "STMTTRNRS")))
+    out = utils.tostring_unclosed_elements(inst.to_etree())
+    return hashlib.sha1(out).hexdigest() + ":" + out[:60].decode("ascii", "replace"), True, ""
+
+
 def _parse_small(which):
     term = U.MIN(U.cls_by_name("STMTTRNRS")) if which == "v1" else U.MIN(U.cls_by_name("ACCTINFOTRNRS"))
     data = wire.to_bytes(wire.doc(ofx_rs(("bankmsgsrsv1", ("BANKMSGSRSV1", {}, [term])) if which == "v1" else ("signupmsgsrsv1", ("SIGNUPMSGSRSV1", {}, [term])))), "sgml" if which == "v1" else "xml")
@@ -312,6 +350,11 @@ OPS = {
     "time_unconvert_utc": lambda: _dt_unconvert("time-utc"),
     "time_unconvert_est_same_instant": lambda: _dt_unconvert("time-est"),
     "two_instances_one_class": _two_instances,
+    "parse_edit_header_parse_v1": lambda: _parse_edit_header_parse("v1"),
+    "parse_edit_header_parse_v2": lambda: _parse_edit_header_parse("v2"),
+    "write_unclosed_small_request": lambda: _unclosed("rq"),
+    "write_unclosed_small_response": lambda: _unclosed("rs"),
+    "write_unclosed_failing": lambda: _unclosed("failing"),
     "parse_small_stmt_v1": lambda: _parse_small("v1"),
     "parse_small_acctinfo_v2": lambda: _parse_small("v2"),
     "string_wide_limit": lambda: _conv("string", False),
@@ -338,6 +381,8 @@ OPNAMES = list(OPS)
 SMALL = ["dt_convert_fresh_descriptor", "dt_convert_class_descriptor", "dt_unconvert_utc", "dt_unconvert_est_same_instant", "time_unconvert_utc", "time_unconvert_est_same_instant"]
 MEDIUM = ["introspect_base_classes", "from_etree_mail", "from_etree_stockinfo", "from_etree_mfinfo_vendor", "two_instances_one_class", "from_etree_seclist"]
 PARSE_SMALL = ["parse_small_stmt_v1", "parse_small_acctinfo_v2"]
+WRITE_SMALL = ["write_unclosed_small_request", "write_unclosed_small_response"]
+EXTRA = ["parse_edit_header_parse_v1", "parse_edit_header_parse_v2", "write_unclosed_failing"] + WRITE_SMALL
 CONV = ["string_wide_limit", "string_narrow_limit", "string_entity_wide_limit", "string_entity_narrow_limit", "nagstring_entity_wide_limit", "nagstring_entity_narrow_limit", "nagstring_wide_limit", "nagstring_narrow_limit", "integer_unbounded", "integer_three_digits", "decimal_unscaled", "decimal_two_places",
         "oneof_declaring_token", "oneof_not_declaring_token"]
 CLIENT = ["client_profile_rq_v102", "client_profile_rq_v160_unclosed_pretty", "client_statement_rq", "client_serialize_default_form", "client_serialize_request_with_overrides"]
@@ -575,7 +620,8 @@ def run(ctx):
         else:
             # all pairs over the document / tree / client operations; the converter probes among themselves; the small
             # parses with the failing parses and with each other
-            main = [o for o in OPNAMES if o not in CONV and o not in PARSE_SMALL]
+            main = [o for o in OPNAMES if o not in CONV and o not in PARSE_SMALL and o not in EXTRA]
+            seqs += list(itertools.product(EXTRA + ["serialize_inv_v1_unclosed_pretty", "parse_truncated"], repeat=2))
             seqs += list(itertools.product(main, repeat=2))
             seqs += list(itertools.product(CONV, repeat=2))
             mix = PARSE_SMALL + ["parse_truncated", "parse_unknown_root", "convert_missing_required", "parse_stmt_v1"]
@@ -600,6 +646,9 @@ def run(ctx):
     # two parses running at once (each with its own OFXTree and source): a switch at the first visit of every function call
     for a, b in itertools.combinations_with_replacement(PARSE_SMALL, 2):
         pairs.append(((a, b), 1, 3000, "call-first"))
+    # two end-tag-less writes at once: a switch at the first visit of every line
+    for a, b in itertools.combinations_with_replacement(WRITE_SMALL, 2):
+        pairs.append(((a, b), 1, 3000, "line-first"))
     # one client object shared by two threads: a switch at the first visit of every function call inside ofxtools
     for a, b in itertools.combinations(CLIENT, 2):
         pairs.append(((a, b), 1, 1500, "call-first"))
